@@ -186,12 +186,16 @@ namespace foonathan
                     mem = pool.allocate(count * node_size);
                     if (!mem)
                     {
-                        // reserve more then the default capacity if that didn't work either
+                        // reserve more then the default capacity if that didn't work either,
+                        // a whole number of the pool's nodes (they can be bigger than node_size)
+                        auto pool_node_size = pool.node_size();
+                        auto array_size     = (count * node_size + pool_node_size - 1)
+                                          / pool_node_size * pool_node_size;
                         detail::check_allocation_size<bad_array_size>(
-                            count * node_size,
-                            [&] { return next_capacity() - pool.alignment() + 1; }, info());
+                            array_size, [&] { return next_capacity() - pool.alignment() + 1; },
+                            info());
 
-                        block = reserve_memory(pool, count * node_size);
+                        block = reserve_memory(pool, array_size);
                         pool.insert(block.memory, block.size);
 
                         mem = pool.allocate(count * node_size);
